@@ -15,6 +15,9 @@ type genFunc func(c *Ctx) error
 var props = map[string]genFunc{}
 
 func main() {
+	if len(os.Args) > 1 && os.Args[1] == "-c14child" {
+		os.Exit(c14Child(os.Args[2:]))
+	}
 	prop := flag.String("prop", "", "property id (C01..C20)")
 	tier := flag.String("tier", "quick", "quick|thorough")
 	seed := flag.Int64("seed", 1, "PRNG seed")
